@@ -3121,3 +3121,7 @@ mod browse_tests {
         );
     }
 }
+
+#[cfg(any(kani, verif_replay))]
+#[path = "/verif/kani/transport.rs"]
+pub(crate) mod verif_kani_transport;
